@@ -17,7 +17,9 @@ import (
 	"reflect"
 	"strconv"
 	"strings"
+	"sync"
 	"testing"
+	"time"
 
 	"github.com/creachadair/jrpc2"
 	"github.com/creachadair/jrpc2/handler"
@@ -153,6 +155,93 @@ func callSafely(h jrpc2.Handler, req *jrpc2.Request) (v any, err error, p any) {
 func isInvalidParams(err error) bool {
 	var je *jrpc2.Error
 	return errors.As(err, &je) && je.Code == jrpc2.InvalidParams
+}
+
+// ---- 0. overlapping calls -----------------------------------------------------------------------
+// Two calls of the same wrapped handler overlap: call A is held inside the decoding of its parameters (a
+// json.Unmarshaler that waits) while call B runs to completion.  Each function invocation must receive its own
+// decoded argument and its own context, whatever the other call does (a handler serves concurrent requests).
+type gated struct {
+	N    int
+	Tail string
+}
+
+var gateEntered, gateRelease chan struct{}
+
+func (g *gated) UnmarshalJSON(b []byte) error {
+	var raw struct {
+		N    int    `json:"n"`
+		Tail string `json:"tail"`
+	}
+	if err := json.Unmarshal(b, &raw); err != nil {
+		return err
+	}
+	g.N, g.Tail = raw.N, raw.Tail
+	if g.N == 1 && gateEntered != nil {
+		close(gateEntered)
+		<-gateRelease
+	}
+	return nil
+}
+
+type ctxTag struct{}
+
+func checkOverlap(prop string, res *result) {
+	type obs struct {
+		n   int
+		tag any
+	}
+	mk := map[string]func(rec func(obs)) (jrpc2.Handler, string, string){
+		"func(ctx, *T)": func(rec func(obs)) (jrpc2.Handler, string, string) {
+			return handler.New(func(ctx context.Context, g *gated) (int, error) { rec(obs{g.N, ctx.Value(ctxTag{})}); return g.N, nil }), `{"n":1,"tail":"a"}`, `{"n":2,"tail":"b"}`
+		},
+		"func(ctx, T)": func(rec func(obs)) (jrpc2.Handler, string, string) {
+			return handler.New(func(ctx context.Context, g gated) (int, error) { rec(obs{g.N, ctx.Value(ctxTag{})}); return g.N, nil }), `{"n":1,"tail":"a"}`, `{"n":2,"tail":"b"}`
+		},
+		"NewPos(func(ctx, T, string))": func(rec func(obs)) (jrpc2.Handler, string, string) {
+			return handler.NewPos(func(ctx context.Context, g gated, s string) (int, error) {
+				rec(obs{g.N, ctx.Value(ctxTag{})})
+				return g.N, nil
+			}, "g", "s"), `[{"n":1},"a"]`, `[{"n":2},"b"]`
+		},
+	}
+	names := []string{"func(ctx, *T)", "func(ctx, T)"}
+	if prop == "C16" {
+		names = []string{"NewPos(func(ctx, T, string))"}
+	}
+	for _, name := range names {
+		var mu sync.Mutex
+		var seen []obs
+		h, pa, pb := mk[name](func(o obs) { mu.Lock(); seen = append(seen, o); mu.Unlock() })
+		gateEntered, gateRelease = make(chan struct{}), make(chan struct{})
+		type ret struct {
+			v   any
+			err error
+		}
+		ra := make(chan ret, 1)
+		go func() {
+			v, err := h(context.WithValue(context.Background(), ctxTag{}, "A"), mkReq(pa))
+			ra <- ret{v, err}
+		}()
+		select {
+		case <-gateEntered:
+		case <-time.After(10 * time.Second):
+			res.add(prop, name, pa, "harness: call A never reached the decoder")
+			continue
+		}
+		vb, eb := h(context.WithValue(context.Background(), ctxTag{}, "B"), mkReq(pb))
+		close(gateRelease)
+		a := <-ra
+		gateEntered = nil
+		res.Evaluations++
+		res.Classes["overlap"]++
+		mu.Lock()
+		got := fmt.Sprint(seen)
+		mu.Unlock()
+		if eb != nil || a.err != nil || fmt.Sprint(vb) != "2" || fmt.Sprint(a.v) != "1" || (got != "[{2 B} {1 A}]") {
+			res.add(prop, name, pa+" overlapping "+pb, fmt.Sprintf("call A returned (%v, %v), call B (%v, %v), the function saw (n, context) %s; want A: 1, B: 2, function calls [{2 B} {1 A}]", a.v, a.err, vb, eb, got))
+		}
+	}
 }
 
 // ---- 1. signature grammar ----------------------------------------------------------------------
@@ -834,9 +923,11 @@ func TestAdapt(t *testing.T) {
 				res.Cells++
 				checkKind(c, res)
 			}
+			checkOverlap("C15", res)
 			res.Samples = append(res.Samples, "func(context.Context, S2) (any, error) with params [7,\"x\"], strict, AllowArray", "func(context.Context, ...[]int) int")
 		}
 		if which == "C16" {
+			checkOverlap("C16", res)
 			for _, c := range tab.Pos {
 				res.Cells++
 				checkPos(c, res)
